@@ -326,7 +326,10 @@ def _pickle_array_annotation(x: type["AbstractArray"]):
     if x is AbstractArray:
         return _return_abstractarray, ()
     else:
-        return x.dtype.__getitem__, ((x.array_type, x.dim_str),)
+        # Rebuild from what the annotation was subscripted with. (Not from
+        # `x.array_type`/`x.dim_str`: for nested annotations those hold the innermost
+        # array type and the concatenated shape, which would drop the inner dtypes.)
+        return x.dtype.__getitem__, (x._subscript_item,)
 
 
 copyreg.pickle(_MetaAbstractArray, _pickle_array_annotation)
@@ -600,12 +603,14 @@ def _make_array(x, dim_str, dtype):
     out = _make_array_cached(x, dim_str, dtype.dtypes, dtype.__name__)
 
     if type(out) is tuple:
+        subscript_item = (x, dim_str)
         array_type, name, dtypes, dims, index_variadic, dim_str = out
 
         out = _MetaAbstractArray(
             name,
             (AbstractArray,),
             dict(
+                _subscript_item=subscript_item,
                 dtype=dtype,
                 array_type=array_type,
                 dim_str=dim_str,
